@@ -75,10 +75,17 @@ type FnExec struct {
 	deferStack []deferred
 	havocked bool
 	assertHit map[int]bool
+	locals []localAlloc // non-escaping stack variables: callees cannot touch them
 	usedG map[string]bool
 	modelTerms [][2]string
 	ptrLeaves map[ssa.Value][]Leaf // pointers to struct fields: the heaps their target lives in
 	nonNil map[Term]bool
+}
+
+type localAlloc struct {
+	instr *ssa.Alloc
+	addr  Term
+	t     types.Type
 }
 
 type deferred struct {
@@ -1002,8 +1009,29 @@ func (x *FnExec) havocLoop(h *ssa.BasicBlock, st *State, ls *LoopSpec, pre *Stat
 	for k := range x.heapBool {
 		keys[k] = true
 	}
+	old := map[string]Term{}
 	for _, k := range sortedKeys(keys) {
+		if strings.HasPrefix(k, "ghost:") && !x.loopTouchesGhost(body) {
+			continue
+		}
+		old[k] = x.getHeap(st, k, x.heapBool[k])
 		st.heaps[k] = x.ctx.Fresh("Hl_"+k, x.heapSort(k))
+	}
+	// stack variables that no instruction of the loop stores to keep their content
+	written := map[*ssa.Alloc]bool{}
+	for blk := range body {
+		for _, in := range blk.Instrs {
+			if s, ok := in.(*ssa.Store); ok {
+				if a := rootAlloc(s.Addr); a != nil {
+					written[a] = true
+				}
+			}
+		}
+	}
+	for _, l := range x.locals {
+		if !written[l.instr] {
+			x.restoreCells(st, old, l)
+		}
 	}
 	x.ctx.Note(fmt.Sprintf("loop %d of %s: no 'modifies' clause, all heaps havocked at the cut", x.loopOrd[h], x.fnName()))
 }
@@ -1015,6 +1043,19 @@ func (x *FnExec) havocLoc(env *Env, st *State, m CExpr) {
 			a := env.scalar(env.Eval(ix.I), "modifies")
 			h := x.getHeap(st, "Big", false)
 			st.heaps["Big"] = x.ctx.Define("H_Big", SArrI, Sto(h, a, x.ctx.Fresh("hv", SInt)))
+			return
+		}
+	}
+	if c, ok := m.(*CCall); ok && c.Fn == "ghost" {
+		if id, ok := c.Args[0].(*CIdent); ok {
+			key := "ghost:" + id.Name
+			h := x.getHeap(st, key, false)
+			if len(c.Args) > 1 {
+				idx := env.scalar(env.Eval(c.Args[1]), "ghost index")
+				st.heaps[key] = x.ctx.Define("H_"+key, SArrI, Sto(h, idx, x.ctx.Fresh("gv", SInt)))
+			} else {
+				st.heaps[key] = x.ctx.Define("H_"+key, SArrI, Sto(h, "0", x.ctx.Fresh("gv", SInt)))
+			}
 			return
 		}
 	}
@@ -1182,4 +1223,46 @@ func (x *FnExec) lemmaInstances(env *Env) []Term {
 		out = append(out, Implies(And(hyps...), And(concls...)))
 	}
 	return out
+}
+
+func rootAlloc(v ssa.Value) *ssa.Alloc {
+	for {
+		switch t := v.(type) {
+		case *ssa.Alloc:
+			return t
+		case *ssa.FieldAddr:
+			v = t.X
+		case *ssa.IndexAddr:
+			v = t.X
+		default:
+			return nil
+		}
+	}
+}
+
+// restoreCells copies the cells of a stack variable from the heaps in old into st.
+func (x *FnExec) restoreCells(st *State, old map[string]Term, l localAlloc) {
+	for i, leaf := range x.mem.Leaves(l.t) {
+		o, ok := old[leaf.Key]
+		if !ok {
+			continue
+		}
+		cur, ok := st.heaps[leaf.Key]
+		if !ok || cur == o {
+			continue
+		}
+		a := Add(l.addr, Lit(int64(i)))
+		st.heaps[leaf.Key] = x.ctx.Define("H_"+leaf.Key, x.heapSort(leaf.Key), Sto(cur, a, Sel(o, a)))
+	}
+}
+
+func (x *FnExec) loopTouchesGhost(body map[*ssa.BasicBlock]bool) bool {
+	for blk := range body {
+		for _, in := range blk.Instrs {
+			if _, ok := in.(ssa.CallInstruction); ok {
+				return true
+			}
+		}
+	}
+	return false
 }
